@@ -67,6 +67,19 @@ class HDict:
         return HDict(self.items)
 
 
+class HAbstract:
+    """A container whose contents are unknown (a dict after a store under a symbolic key).  Stores are absorbed;
+    every read is Unsupported, so nothing is ever concluded from its contents."""
+
+    kind = "abstract"
+
+    def __init__(self, what="dict"):
+        self.what = what
+
+    def copy(self):
+        return HAbstract(self.what)
+
+
 class HSymMap:
     """Total map Int -> Int modelled by a z3 array, with an explicit 'absent' value (used for Bus.lookup with
     symbolic bank ranges).  present(k) <=> arr[k] != ABSENT."""
@@ -80,6 +93,39 @@ class HSymMap:
 
     def copy(self):
         return HSymMap(self.arr, self.values)
+
+
+class HSymList:
+    """A list of symbolic length: `prefix` (concrete items) ++ `length` items given by `mk(I, st, index term)` ++ `tail`
+    (concrete items appended later).  Used for token lists of arbitrary length and for lists a loop has appended to an
+    arbitrary number of times.  `mk` returns an engine value for the element at a (possibly symbolic) index."""
+
+    kind = "symlist"
+
+    def __init__(self, length, mk, prefix=(), tail=(), what="list"):
+        self.length = length
+        self.mk = mk
+        self.prefix = tuple(prefix)
+        self.tail = tuple(tail)
+        self.what = what
+
+    def copy(self):
+        return HSymList(self.length, self.mk, self.prefix, self.tail, self.what)
+
+    def total(self):
+        return len(self.prefix) + to_z3int(self.length) + len(self.tail)
+
+
+class SymEnum:
+    """A member of an Enum class chosen by a symbolic index into the class's members (definition order)."""
+
+    def __init__(self, cls, code, members):
+        self.cls = cls
+        self.code = code
+        self.members = tuple(members)  # member names, by index
+
+    def __repr__(self):
+        return f"<{self.cls.split('.')[-1]} #{self.code}>"
 
 
 class ClassVal:
